@@ -41,7 +41,7 @@ func c05Base(r *rand.Rand) *specs.Spec {
 		}
 	}
 	ann := func() map[string]string {
-		return map[string]string{pickStr(r, "note", "Note.x", "n"): "v", pickStr(r, "example.com/key", "a.b-c.io/K_1", strings.Repeat("p", 63)+"."+strings.Repeat("q", 63)+"/"+strings.Repeat("n", 63)): "w"}
+		return map[string]string{pickStr(r, "note", "Note.x", "n", "k", "ak"): "v", "k": "kelvin twin", "ak": "kelvin twin", pickStr(r, "example.com/key", "a.b-c.io/K_1", strings.Repeat("p", 63)+"."+strings.Repeat("q", 63)+"/"+strings.Repeat("n", 63)): "w"}
 	}
 	s := &specs.Spec{Version: pickStr(r, "0.7.0", "0.8.0", "1.0.0"), Kind: pickStr(r, "vendor.com/gpu", "v/c", "V-1.x_y/c-1_z.w", "a.b/c.d"), Annotations: ann(), ContainerEdits: edits("s")}
 	names := [][]string{{"dev0", "dev1", "dev2"}, {"a", "0", "x-y_z.w:1"}, {"0a", "B", "c:d"}}[r.Intn(3)]
